@@ -11,7 +11,8 @@ RULE = ("histories over {constructor kwargs, set valid / wrong type / None / unk
         "and every transport's options and compared with the model; exhaustive to length 2 over a representative "
         "option per definition class (3 thorough), random to length 30; non-trivial = the history contains a "
         "rejected assignment, a transport replacement or a clone; distinct = distinct histories"
-        ' ; plus: option names that look internal, transports attached again, several options in one set_options call, what the transport does with the proxy option (loopback servers)')
+        ' ; plus: option names that look internal, transports attached again, several options in one set_options call, what the transport does with the proxy option (loopback servers)'
+        " ; option sets built directly: suds.options.Options(**kw) and the transport's, value / None / wrong type / unknown name, transport given to the constructor")
 ASSUMPTIONS = ["object-valued options (cache, store, plugins...) are compared by class, transports by identity",
                "mutating a default container in place (shared mutable defaults) is outside the operation alphabet"]
 PARTIAL = []
@@ -503,8 +504,64 @@ def run(ctx):
     transport_follows_options(ctx)
     constructor_order(ctx)
     clone_behaviour(ctx)
+    direct_options_objects(ctx)
     ctx.sample({"script": [{"k": "client"}, {"k": "clone", "c": 0}, {"k": "tset", "c": 1, "name": "timeout", "value": 5},
                            {"k": "set", "c": 0, "name": "faults", "value": "yes"}]})
+
+
+def direct_options_objects(ctx):
+    """The option sets built directly - suds.options.Options(**kw), suds.transport.options.Options(**kw) - follow the
+    same rules as the ones a client builds: a value reads back, None reads back as the default, a value of the wrong
+    type or an unknown name raises AttributeError, and a transport given to the constructor is linked (its options
+    are the ones the option set reads and writes)."""
+    import suds.options
+    import suds.transport.http
+    import suds.transport.options
+    from suds.properties import Unskin
+    for label, cls in (("client", suds.options.Options), ("transport", suds.transport.options.Options)):
+        defs = Unskin(cls()).definitions
+        for name, d in defs.items():
+            if name == "transport":
+                continue
+            valid, invalid = value_pool(name)
+            cases = [("none", None, d.default)] + [("valid", v, v) for v in valid] + [("invalid", v, None) for v in invalid]
+            for kind, v, want in cases:
+                meta = {"stream": "direct-options", "domain": label, "option": name, "kind": kind, "value": repr(v)[:40]}
+                ctx.case(common.canon(meta), True)
+                try:
+                    o = cls(**{name: v})
+                    got = ["ok", getattr(o, name)]
+                except AttributeError:
+                    got = ["AttributeError"]
+                except Exception as e:
+                    got = ["other", repr(e)]
+                if kind == "invalid":
+                    if got != ["AttributeError"]:
+                        ctx.fail("an option set built with a value of the wrong type does not raise AttributeError", meta,
+                                 repr(got)[:200], "AttributeError")
+                elif got[0] != "ok" or not (got[1] is want or got[1] == want or (
+                        kind == "none" and type(got[1]) is type(want) and
+                        not isinstance(want, (bool, int, float, str, tuple, list, dict, type(None))))):
+                    ctx.fail("an option given to the option set's constructor does not read back (default after None)",
+                             meta, repr(got)[:200], repr(want)[:200])
+        try:
+            cls(no_such_option=1)
+            ctx.fail("an unknown option name given to the constructor is accepted", {"domain": label}, "accepted",
+                     "AttributeError")
+        except AttributeError:
+            pass
+    t = suds.transport.http.HttpTransport()
+    o = suds.options.Options(transport=t)
+    ctx.case(("direct-options", "transport-linked"), True)
+    try:
+        o.timeout = 7
+        t.options.proxy = {"http": "p:1"}
+        got = [t.options.timeout, o.proxy, o.transport is t]
+    except Exception as e:
+        got = repr(e)
+    if got != [7, {"http": "p:1"}, True]:
+        ctx.fail("a transport given to the option set's constructor is not linked to it", {"stream": "direct-options"},
+                 repr(got), repr([7, {"http": "p:1"}, True]))
 
 
 def kf_clone_binding_options(f, k):
